@@ -150,7 +150,7 @@ def builtin_cases():
         "Integer": [2, 1],
         "Array(real)": [np.array([1.0, -2.0, 3.0, 4.0]), np.array([0.5])],
         "Array(complex)": [np.array([1j, 2.0, -1.0, 1 + 1j])],
-        "UserType(y)": [np.array([1.0, -2.0]).view(UVec)],
+        "UserType(y)": [np.array([1j, -2.0]).view(UVec), np.array([1.0, -2.0]).view(UVec)],
         "Boolean": [True],
     }
     kinds = {"Scalar(real)": Scalar(True), "Scalar(complex)": Scalar(False), "Integer": Integer(),
